@@ -53,6 +53,10 @@ def bilinearTaps {K : Type} [OfNat K 1] [Sub K] [Mul K] (w h p0x p0y : Int) (fx 
 /-- truncation of a rational towards zero (`dst_value_t(src)` for an integral destination) -/
 def truncQ (q : Rat) : Int := Int.tdiv q.num q.den
 
+/-- `cast_channel_fn` for an integral destination since fix 056e54b:
+    `DstValue(src < 0 ? src - 0.5 : src + 0.5)` -- round to nearest, halves away from zero (exact arithmetic) -/
+def roundQ (q : Rat) : Int := truncQ (if q < 0 then q - 1 / 2 else q + 1 / 2)
+
 /-- exact weighted sum  Σ w·src(x,y)  (the accumulator `mp`) -/
 def accQ (src : Int → Int → Int) (taps : List (Tap Rat)) : Rat :=
   taps.foldl (fun acc t => acc + (src t.x t.y : Rat) * t.w) 0
@@ -76,6 +80,9 @@ def nearestQ (w h : Int) (nx ny D : Int) : Option (Int × Int) :=
 
 def f2i (x : Float) : Int := x.toInt64.toInt
 
+/-- the rounding cast in binary64 / binary32 (the addition of 0.5 is itself a floating point operation) -/
+def castRoundF (a : Float) : Int := f2i (if a < 0.0 then a - 0.5 else a + 0.5)
+
 def iroundF (x : Float) : Int := f2i (x + (if x < 0.0 then -0.5 else 0.5))
 def ifloorF (x : Float) : Int := f2i (Float.floor x)
 
@@ -97,6 +104,8 @@ def nearestF (w h : Int) (px py : Float) : Option (Int × Int) :=
 /-! ### … and for point<float> (binary32 throughout: frac, weights, products, accumulator) -/
 
 def f2i32 (x : Float32) : Int := x.toInt64.toInt
+
+def castRoundF32 (a : Float32) : Int := f2i32 (if a < 0.0 then a - 0.5 else a + 0.5)
 
 def accF32 (src : Int → Int → Int) (taps : List (Tap Float32)) : Float32 :=
   taps.foldl (fun acc t => acc + Float32.ofInt (src t.x t.y) * t.w) 0
